@@ -65,6 +65,22 @@ fn replay_opt(path: &str) -> i32 {
         init_score: f(&v["script"]["init_score"]),
     };
     install(cfg, script, init, 0, 0.);
+    // replica of the seeded generator in the baseline consumption order (index, move, acceptance)
+    {
+        use rand::distributions::{Distribution, Uniform};
+        use rand::{Rng, SeedableRng};
+        let mut rng = rand_pcg::Pcg64Mcg::seed_from_u64(cfg.seed);
+        let dist = Uniform::new(0usize, np.max(1));
+        let m = mon();
+        let mut k = 0;
+        while k < MAXC {
+            let _i: usize = dist.sample(&mut rng);
+            let _d: f64 = rng.gen_range(-0.5, 0.5);
+            m.draws[k] = rng.gen::<f64>();
+            k += 1;
+        }
+        m.draws_n = if v["no_draws"].as_bool().unwrap_or(false) { 0 } else { MAXC };
+    }
     let r = std::panic::catch_unwind(|| run(&cfg, init));
     let m = mon();
     let panicked = r.is_err();
@@ -75,10 +91,32 @@ fn replay_opt(path: &str) -> i32 {
         "reliable": m.reliable, "first_bad_call": if m.first_bad_call == usize::MAX { -1 } else { m.first_bad_call as i64 },
         "conv_stop_at": m.conv_stop_at, "loops_done": m.loops_done,
         "flags": {"multi_param": fl.multi_param, "bad_held": fl.bad_held, "big_move": fl.big_move,
-                  "out_of_range": fl.out_of_range, "prob": fl.prob, "overflow": fl.overflow},
+                  "out_of_range": fl.out_of_range, "prob": fl.prob, "overflow": fl.overflow, "bad_count": fl.bad_count},
         "vecs": (0..m.calls.min(MAXC)).map(|t| (0..np).map(|j| f64::from_bits(m.vecs[t][j])).collect::<Vec<_>>()).collect::<Vec<_>>(),
     });
     println!("{}", out);
+    0
+}
+
+/// rng <seed> <nparams> <steps>: the draws of the seeded generator in the baseline consumption
+/// order of one Monte-Carlo step (parameter index, move in [-1/2,1/2), acceptance draw in [0,1)).
+fn rng_stream(args: &[String]) -> i32 {
+    use rand::distributions::{Distribution, Uniform};
+    use rand::{Rng, SeedableRng};
+    let seed: u64 = args[0].parse().unwrap();
+    let n: usize = args[1].parse().unwrap();
+    let steps: usize = args[2].parse().unwrap();
+    let mut rng = rand_pcg::Pcg64Mcg::seed_from_u64(seed);
+    let dist = Uniform::new(0usize, n);
+    let mut idx = vec![];
+    let mut ds = vec![];
+    let mut us = vec![];
+    for _ in 0..steps {
+        idx.push(dist.sample(&mut rng));
+        ds.push(rng.gen_range(-0.5, 0.5));
+        us.push(rng.gen::<f64>());
+    }
+    println!("{}", json!({"index": idx, "move": ds, "accept": us}));
     0
 }
 
@@ -89,6 +127,7 @@ fn main() {
         Some("eval") => evalfns::eval_stdin(),
         Some("oracle") => oracle::main(&args[2..]),
         Some("data") => evalfns::data(&args[2..]),
+        Some("rng") => rng_stream(&args[2..]),
         _ => {
             eprintln!("usage: pv_replay opt <file> | eval | oracle ...");
             2
